@@ -376,7 +376,7 @@ func (p *Parser) varDecl(attrs []Attribute) (*VarDecl, *ParseError) {
 				accessMode = p.advance().Lexeme
 			}
 		}
-		if err := p.expectErr(TokenGreater); err != nil {
+		if err := p.expectTemplateClose(); err != nil {
 			return nil, err
 		}
 	}
@@ -696,7 +696,7 @@ func (p *Parser) typeSpec() (Type, *ParseError) {
 			}
 		}
 
-		if err := p.expectErr(TokenGreater); err != nil {
+		if err := p.expectTemplateClose(); err != nil {
 			return nil, err
 		}
 
@@ -736,7 +736,7 @@ func (p *Parser) typeSpec() (Type, *ParseError) {
 			}
 		}
 
-		if err := p.expectErr(TokenGreater); err != nil {
+		if err := p.expectTemplateClose(); err != nil {
 			return nil, err
 		}
 
@@ -773,7 +773,7 @@ func (p *Parser) typeSpec() (Type, *ParseError) {
 					break
 				}
 			}
-			if err := p.expectErr(TokenGreater); err != nil {
+			if err := p.expectTemplateClose(); err != nil {
 				return nil, err
 			}
 		}
@@ -1735,7 +1735,7 @@ func (p *Parser) primary() (Expr, *ParseError) {
 			if err != nil {
 				return nil, err
 			}
-			if err := p.expectErr(TokenGreater); err != nil {
+			if err := p.expectTemplateClose(); err != nil {
 				return nil, err
 			}
 			if err := p.expectErr(TokenLeftParen); err != nil {
